@@ -172,6 +172,9 @@ def main():
     m2 = re.search(r"let new_seq = self\.inner\.sequence\.load\(Ordering::\w+\); if (.+?) \{ Ok\(value\) \} else \{ Err\(SyncCellReadError \{\}\) \}", rn)
     e1 = rust_expr_to_lean(m1.group(1), {"seq": "seq"}) if m1 else None
     e2 = rust_expr_to_lean(m2.group(1), {"seq": "seq", "new_seq": "newSeq"}) if m2 else None
+    mseq = re.search(r"sequence: Atomic(Usize|U8|U16|U32|U64|I8|I16|I32|I64|Isize),", sc)
+    bits = {"Usize": 64, "U64": 64, "I64": 64, "Isize": 64, "U32": 32, "I32": 32, "U16": 16, "I16": 16, "U8": 8, "I8": 8}.get(mseq.group(1), 0) if mseq else 0
+    out.append("/-- width in bits of the sequence counter of `SyncCell` (0: not recognised) -/\ndef syncCellSeqBits : Nat := " + str(bits))
     out.append("/-- both tests of `try_read` could be translated -/\ndef tryReadTestsTranslated : Bool := " + ("true" if (e1 is not None and e2 is not None) else "false"))
     out.append("/-- `try_read` gives up right after its first load of the sequence when this holds -/\ndef tryReadEarlyReject (seq : Nat) : Bool := " + (e1 if e1 and e2 else "seq % 2 == 1"))
     out.append("/-- `try_read` returns the value it has read when this holds of the first and second sequence loads -/\ndef tryReadAccept (seq newSeq : Nat) : Bool := " + (e2 if e1 and e2 else "newSeq == seq"))
@@ -478,6 +481,9 @@ def main():
     bc = norm(rd("ports/output/broadcaster.rs"))
     owner_loop = re.search(r"loop \{ if !this\.shared\.task_set\.has_scheduled\(\) \{ this\.shared\.wake_sink\.register\(cx\.waker\(\)\); \} let scheduled_tasks = match this\.shared\.task_set\.take_scheduled\(1\) \{ Some\(st\) => st, None => return Poll::Pending, \}; for task_idx in scheduled_tasks \{", bc) is not None
     out.append("/-- `BroadcastFuture::poll`: in its loop the parent's waker is registered (when nothing is scheduled) before `take_scheduled(1)`, `None` returns `Pending`, otherwise the iterator is walked -/\ndef bcastRegistersBeforeTake : Bool := " + b(owner_loop))
+    sbc = norm(rd("ports/source/broadcaster.rs"))
+    src_owner_loop = re.search(r"loop \{ if !this\.task_set\.has_scheduled\(\) \{ this\.wake_sink\.register\(cx\.waker\(\)\); \} let scheduled_tasks = match this\.task_set\.take_scheduled\(1\) \{ Some\(st\) => st, None => return Poll::Pending, \}; for task_idx in scheduled_tasks \{", sbc) is not None
+    out.append("/-- the same loop in the source-side `BroadcastFuture::poll` (`ports/source/broadcaster.rs`) -/\ndef srcBcastRegistersBeforeTake : Bool := " + b(src_owner_loop))
     # ---- executor/mt_executor/injector.rs: every operation updates the vector and the flag inside one critical section
     ij = norm(rd("executor/mt_executor/injector.rs"))
     ij_pop = fn_body(ij, r"pub\(crate\) fn pop_bucket\(&self\)[^{]*\{")
